@@ -46,3 +46,10 @@ package pool
 //@   ensures (result_1 == nil) == (result_0 != nil)
 //@   ensures result_1 == nil ==> fresh(result_0) && fresh((*result_0).ref) && len(*result_0) >= 12
 //@   ensures result_1 == nil ==> len(*result_0) == len(ret(PackBuffer, 0, 0)) && (forall i int :: 0 <= i && i < len(*result_0) ==> (*result_0)[i] == aftercall(PackBuffer, 0, ret(PackBuffer, 0, 0)[i]))
+
+// Pooled bytes.Buffer (DoH reply reading): abstract; nothing of the modelled heap changes.
+//@ func (p *BytesBufPool) Get
+//@   nobody
+//@   ensures result != nil
+//@ func (p *BytesBufPool) Release
+//@   nobody
